@@ -230,6 +230,24 @@ def run(ctx):
             lines.append(json.dumps({"schema": schema, "ops": [["check"]] + [["validate", p] for p in probes]}))
             meta.append((c, variant, schema, probes))
     outs = vc.impl_parallel(["schema"], lines)
+    # exponents beyond the machine word: 10^(2^64+k) is not 10^k. The true value of M e+X (M != 0, X >= 2^63) is beyond every bound, so with min and max both present
+    # the document must not be accepted (a structured refusal of any kind is fine)
+    hx = []
+    for _ in range(40 if quick else 400):
+        a = rng.randint(-20, 20); b = a + rng.randint(0, 6)
+        M = rng.choice([x for x in range(a, b + 1) if x != 0] or [a - 1 or 1])
+        ex = str(a)
+        for X in (2 ** 64, 2 ** 64 + 1, 2 ** 64 + rng.randint(2, 5), 2 ** 65, 10 ** 20, 2 ** 63, 2 ** 63 - 1 + 2 ** 64, 3 * 2 ** 64):
+            for doc in ("%de%d" % (M, X), "%dE+%d" % (M, X), "%d.0e%d" % (M, X)):
+                hx.append(("%s // {min: %d, max: %d}" % (ex, a, b), doc))
+    houts = vc.impl_parallel(["schema"], [json.dumps({"schema": sc, "ops": [["check"], ["validate", d]]}) for sc, d in hx])
+    for (sc, d), o in zip(hx, houts):
+        r = json.loads(o)
+        ctx.evaluations += 1
+        if r[0] == "ok" and r[1] == "ok" and len(ctx.violations) < 60:
+            info = {"schema": sc, "document": d, "implementation": r[1], "expected": "reject", "rule": "min/max", "variant": "huge-exponent"}
+            ctx.report("min/max: Validate(%s) against %r says ok, the value is beyond every bound (the exponent is read modulo 2^64)" % (d, sc), "c02:" + sc + "|" + d, info, case=info)
+    ctx.extra["huge_exponent_probes"] = len(hx)
     fmt_lines = []
     for (c, variant, schema, probes), o in zip(meta, outs):
         r = json.loads(o)
